@@ -7,9 +7,15 @@ from runner import Job
 CLASSES = ["pess", "opt", "mcs"]
 
 
+QUICK_CAPS = [1, 2, 3, 8]
+THOROUGH_CAPS = [1, 2, 3, 5, 8, 16, 64]
+
+
 def all_builds():
     b = ["lock_stress.plain", "lock_stress.tsan", "lock_stress.asan",
          "zipf_mon.plain", "zipf_mon.asanfatal", "zipf_mon.tsan"]
+    b += ["thr_mon.plain.n%d" % n for n in QUICK_CAPS]
+    b += ["thr_mon.asan.n%d" % n for n in (3, 8)]
     return b
 
 
@@ -236,7 +242,129 @@ def spec_C19(prop, tier, seed, t0):
                                            "distinct_nontrivial": 30}, rule=rule, assumptions=ZIPF_ASSUME)
 
 
+THR_ASSUME = [
+    "capacities are the built ones (quick: 1,2,3,8; thorough adds 5,16,64), not every DBGROUP_MAX_THREAD_NUM",
+    "schedules are sampled: thread churn, forced probe start positions and injected delays at the hook points",
+    "ghost ownership / guard registration is recorded inside the real interval (after the call returned, before "
+    "the releasing action), so a ghost clash implies a real one",
+]
+
+LEAK_RULE = (r"LeakSanitizer: detected memory leaks", "C20", "leak-reported-by-LeakSanitizer")
+
+
+def thr_jobs(mode, caps, seed, runs_per_cap, scale=1, flavor="plain", extra=None, timeout=900, cost=8, stderr_rules=None):
+    jobs = []
+    rng = random.Random(seed * 104729 + hash(mode) % 1000)
+    for n in caps:
+        for i in range(runs_per_cap):
+            args = {"mode": mode, "seed": rng.randrange(1, 2**31), "scale": scale}
+            if extra:
+                args.update(extra(rng, n, i) if callable(extra) else extra)
+            jobs.append(Job("thr_mon.%s.n%d" % (flavor, n), args, timeout=timeout, tag="%s N=%d #%d" % (mode, n, i),
+                            cost=min(cost, n + 1), stderr_rules=stderr_rules))
+    return jobs
+
+
+ID_RULE = ("one evaluation = one thread lifetime (claim an ID, run, exit) in waves of exactly N simultaneous holders, "
+           "oversubscribed starts (N+1..4N threads) and churn with overlapping exit/claim, under forced probe start "
+           "patterns (full collision, consecutive, wrap at N-1, random, real hash) and delays injected between the "
+           "steps of the claim loop and of the exit path; distinct non-trivial cases = distinct (capacity, slot "
+           "claimed) and (capacity, probe pattern) pairs plus (delay point, phase) pairs that overlapped a claim")
+
+
+def _id_check(prop, tier, seed, t0, caps_q, floors):
+    caps = caps_q if tier == "quick" else THOROUGH_CAPS
+    runs, scale = (6, 2) if tier == "quick" else (40, 10)
+    jobs = thr_jobs("id", caps, seed, runs, scale, extra={"hang_s": 20})
+    return _mk(prop, tier, seed, t0, jobs, floors, rule=ID_RULE, assumptions=THR_ASSUME)
+
+
+def spec_C05(prop, tier, seed, t0):
+    return _id_check(prop, tier, seed, t0, QUICK_CAPS,
+                     {"thread_lifetimes": 10000, "claims_that_probed_more_than_one_slot": 2000,
+                      "claims_that_wrapped_around": 200})
+
+
+def spec_C14(prop, tier, seed, t0):
+    return _id_check(prop, tier, seed, t0, QUICK_CAPS,
+                     {"waves_of_N_simultaneous_holders": 100, "oversubscribed_rounds": 100, "churn_rounds": 100,
+                      "chaos_overlaps:42+43+44": 200})
+
+
+def spec_C15(prop, tier, seed, t0):
+    return _id_check(prop, tier, seed, t0, [1, 2, 3, 8],
+                     {"id_reuses_checked": 5000, "chaos_overlaps:43+44": 300,
+                      "heartbeat_alive_checks_on_running_threads": 100})
+
+
+EPOCH_RULE = ("one evaluation = one ForwardGlobalEpoch, one guard or one list returned by GetProtectedEpochs in a run "
+              "with one coordinator and N-1 churned worker threads; distinct non-trivial cases = distinct "
+              "(capacity, sub-workload) and (capacity, observed situation: guard on reused ID, list held across a "
+              "node boundary, quiescent forward, stale publication, lookup stall) signatures plus (delay point, "
+              "phase) pairs that overlapped foreign operations")
+
+
+def _epoch_extra(subs):
+    def f(rng, n, i):
+        return {"sub": subs[i % len(subs)], "pace": rng.choice([0, 2000, 2000, 20000, 50000]),
+                "fwdchaos": 1 if rng.random() < 0.2 else 0}
+    return f
+
+
+def spec_C04(prop, tier, seed, t0):
+    caps = [2, 3, 8] if tier == "quick" else [2, 3, 5, 8, 16, 64]
+    runs, scale = (8, 1) if tier == "quick" else (60, 8)
+    jobs = thr_jobs("epoch", caps, seed, runs, scale, extra=_epoch_extra(["A"]))
+    return _mk(prop, tier, seed, t0, jobs, {"guard_forward_pairs_checked": 50000, "guard_forward_pairs_on_reused_id": 5000,
+                                           "thread_replacements": 200, "chaos_overlaps:43+44": 20},
+               rule=EPOCH_RULE, assumptions=THR_ASSUME)
+
+
+def spec_C16(prop, tier, seed, t0):
+    caps = QUICK_CAPS if tier == "quick" else THOROUGH_CAPS
+    runs, scale = (6, 1) if tier == "quick" else (40, 8)
+    jobs = thr_jobs("epoch", caps, seed, runs, scale, extra=_epoch_extra(["A"]))
+    jobs += thr_jobs("model", caps, seed + 1, 2 if tier == "quick" else 10, 2 if tier == "quick" else 10)
+    return _mk(prop, tier, seed, t0, jobs, {"forwards": 300000, "quiescent_checks": 50, "monotonic_read_checks": 10000},
+               rule=EPOCH_RULE, assumptions=THR_ASSUME)
+
+
+def spec_C17(prop, tier, seed, t0):
+    caps = [2, 3, 8] if tier == "quick" else [2, 3, 5, 8, 16, 64]
+    runs, scale = (9, 1) if tier == "quick" else (60, 8)
+    jobs = thr_jobs("epoch", caps, seed, runs, scale, extra=_epoch_extra(["A", "A", "A", "B", "A", "C"]))
+    acaps = [3, 8] if tier == "quick" else [3, 8]
+    jobs += thr_jobs("epoch", acaps, seed + 5, 3 if tier == "quick" else 30, 1, flavor="asan",
+                     extra=_epoch_extra(["A", "A", "B"]))
+    return _mk(prop, tier, seed, t0, jobs, {"lists_checked": 100000, "lists_held_across_a_node_boundary": 200},
+               rule=EPOCH_RULE + "; sub-workload A injects no delay inside EnterEpoch's read/publish gap nor inside the "
+               "list lookup, B parks workers in the gap, C parks them inside the lookup traversal; every symptom is "
+               "keyed by the history class the worker itself observed",
+               assumptions=THR_ASSUME)
+
+
+def spec_C20(prop, tier, seed, t0):
+    caps = QUICK_CAPS if tier == "quick" else THOROUGH_CAPS
+    runs, scale = (4, 4) if tier == "quick" else (30, 20)
+    jobs = thr_jobs("model", caps, seed, runs, scale)
+    jobs += thr_jobs("model", [3, 8], seed + 3, 1 if tier == "quick" else 10, 2, flavor="asan", stderr_rules=[LEAK_RULE])
+    rule = ("one evaluation = one ForwardGlobalEpoch in a lock-step (sequential) history of guard creation/destruction "
+            "by up to N-1 worker threads, after which the published list and GetMinEpoch are compared with a "
+            "reference model and the number of live list nodes (over-aligned allocations) with the number of distinct "
+            "256-epoch ranges in the list; managers are destroyed and all nodes must be freed; distinct non-trivial "
+            "cases = distinct (capacity, number of pins, number of ranges) and destruction-point signatures")
+    return _mk(prop, tier, seed, t0, jobs, {"lists_compared_with_model": 200000, "node_boundaries_crossed": 500,
+                                           "managers_destroyed": 50}, rule=rule, assumptions=THR_ASSUME)
+
+
 SPECS = {
+    "C04": spec_C04,
+    "C05": spec_C05,
+    "C14": spec_C14,
+    "C15": spec_C15,
+    "C16": spec_C16,
+    "C17": spec_C17,
+    "C20": spec_C20,
     "C06": spec_C06,
     "C18": spec_C18,
     "C19": spec_C19,
